@@ -145,6 +145,23 @@ CLAIMED["C25"] = dict(
          "stated assumptions. Bounded stand-in: real doubled systems have every band twice at random k.",
     note=TB + "; assumed: cos^2+sin^2=1, exp(-ix)=cos x - i sin x, double-angle formulas; a block-diagonal matrix has the union of the blocks' spectra, A (x) 1_2 has every eigenvalue of A twice")
 
+CLAIMED["C09"] = dict(
+    text="PointSymmetry (real text, real numpy on symbolic 3x3 matrices and tensors; no orthogonality needed): product law for the full "
+         "(im)proper matrices, TR/Inv flags as xor; transform_tensor equals 'rotate every one of the last rank axes, then transformTR iff "
+         "TR, then transformInv iff Inv' and satisfies the ACTION LAW (s1*s2).T(x) = s1.T(s2.T(x)) for ranks 0-3 with 0-1 leading axes and "
+         "every combination of the pre-defined (involutive) transforms; Transform.__call__ element-wise and involutive; "
+         "transform_reduced_vector definition and composition law for symbolic operations on four rational bases. The closure loop of "
+         "PointGroup.__init__ is run as real text over abstract groups (multiplication tables of Z1-Z6, Z2xZ2, S3, D4) for every generator "
+         "subset: the result is exactly the generated subgroup. Proved for all real data at these shapes. Bounded stand-in: 10 (quick) / "
+         "29 (thorough) crystallographic point groups, each with and without time reversal: closure, identity, inverses, lattice "
+         "invariance, symmetrize idempotent and invariant (ranks 1-3), star lists each distinct image once on generic and high-symmetry k.",
+    note=TB + "; the action law is claimed for involutive transforms only (all pre-defined ones); det(R1 R2)=det R1 det R2; np.linalg.inv exact; star / symmetrize / lattice checks are bounded")
+
+CLAIMED["C12"]["text"] = CLAIMED["C12"]["text"].replace("The path re-ordering clause (TABresult.self_to_path) is covered under C29.",
+    "TABresult.self_to_path + K__Result.to_path (real text): for paths of 1-5 points EVERY collection order (9 points: 40 sampled orders), "
+    "k-points returned modulo lattice vectors, symbolic values: the result is in path order and row j carries path point j's own value. "
+    "get_ray_runtime_env: the driver's package directory is shipped exactly once for every user runtime_env variant.")
+
 NOT_APPLICABLE = {
     "C20": "real-space symmetrisation is a data-dependent floating-point orbit search over irrep objects; its postcondition is only statable through an eigen-solver, no discrete/algebraic kernel is left once externals are abstracted (DESIGN section 7)",
     "C21": "rotation matrices are produced inside sympy (polynomial expansion + evalf); orthogonality/composition live in that CAS computation, outside any contract this engine can generate VCs for (DESIGN section 7)",
